@@ -38,6 +38,10 @@ def _on_alarm(signum, frame):
     raise Hang()
 
 
+def replay_root():
+    return os.environ.get("VERIF_REPLAY_DIR") or os.path.join(VERIF, "replays")
+
+
 def nps_root():
     return os.path.realpath(os.environ.get("NPS_ROOT", "/repo"))
 
@@ -235,6 +239,10 @@ def run_check(prop, tier, jobs=None, seed=None, out=sys.stdout):
     root = bind_repo()
     mod = load_check(prop)
     shards = list(mod.shards(tier))
+    rdir0 = os.path.join(replay_root(), prop)
+    if os.path.isdir(rdir0):
+        for fn in os.listdir(rdir0):          # replay artefacts belong to one run
+            os.unlink(os.path.join(rdir0, fn))
     if not shards:
         print(f"HARNESS-ERROR: {prop} has no shards for tier {tier}", file=out)
         return 2
@@ -306,7 +314,7 @@ def run_check(prop, tier, jobs=None, seed=None, out=sys.stdout):
     reported = []
     if viol:
         per_group = collections.Counter()
-        rdir = os.path.join(VERIF, "replays", prop)
+        rdir = os.path.join(replay_root(), prop)
         os.makedirs(rdir, exist_ok=True)
         for f in viol:      # shard order = simplest first, so the first of a group is the smallest
             key = (f["kind"], f["classifier"])
